@@ -113,11 +113,22 @@ func genC19(o *Out, rng *rand.Rand, tier string) {
 	if tier == "thorough" {
 		maxLen, n = 7, 25000
 	}
+	var accepted [][]byte
 	emitDec := func(in []byte, cls string) {
-		rec, _ := labelDec(in)
+		rec, l := labelDec(in)
 		rec["op"], rec["in"] = "LDec", B(in)
 		o.Emit(rec, cls, in, len(in) > 0)
+		if l != nil && len(in) > 6 && len(accepted) < 3000 {
+			accepted = append(accepted, append([]byte(nil), in...))
+		}
 	}
+	defer func() {
+		concurrentDecodes(accepted, func(in []byte) any { rec, _ := labelDec(in); return rec }, func(in []byte, out any) {
+			rec := out.(map[string]any)
+			rec["op"], rec["in"] = "LDec", B(in)
+			o.Emit(rec, "concurrent-decoders", append([]byte("cc"), in...), true)
+		})
+	}()
 	alpha := []byte{0, 1, 2, 3, 'a', 0xC0, 0x40}
 	var rec func(cur []byte)
 	rec = func(cur []byte) {
